@@ -7,6 +7,7 @@ package harness
 
 import (
 	"fmt"
+	mrandv1 "math/rand"
 	"sort"
 	"strings"
 	"sync"
@@ -186,6 +187,9 @@ func Execute(t *testing.T, spec RunSpec) (res RunResult) {
 	}
 	t0 := time.Now()
 	cryptotest.SetGlobalRandom(t, spec.Seed*2654435761+12345)
+	// gorilla/websocket draws its client mask keys from the global math/rand
+	// source (needs GODEBUG=randseednop=0, set in worker_test.go)
+	mrandv1.Seed(int64(spec.Seed))
 	func() {
 		defer func() {
 			if r := recover(); r != nil {
